@@ -28,6 +28,9 @@ def build(variant):
     feat = "full"
     if variant.endswith("+bundled"):
         variant, feat = variant[:-8], "bundled"
+    be = variant.endswith("+be")
+    if be:
+        variant, feat = variant[:-3], "be"
     xl, xlkey = build_translator_plain()
     gen = gen_wasihost()
     rfiles = [os.path.join(REPO, "wasi", f) for f in ("wasi.c", "wasi.h")] + [os.path.join(REPO, "w2c2", "w2c2_base.h")]
@@ -44,15 +47,16 @@ def build(variant):
     run_cmd([xl, variant + ".wasm", variant + ".c"], cwd=d, timeout=120)
     cov = ["-fsanitize-coverage=trace-pc-guard,trace-loads,trace-stores"]
     inc = ["-I" + os.path.join(REPO, "w2c2"), "-I" + os.path.join(REPO, "wasi"), "-I" + d, "-I" + ENG]
-    sut = ["clang", "-O1", "-g", "-w"] + SAN_MEM + cov + ["-include", os.path.join(VERIF, "engines", "simrt", "sim_atomics.h")] + WASI_DEFS + inc
+    bedefs = ["-DWASM_ENDIAN=WASM_BIG_ENDIAN"] if be else []
+    sut = ["clang", "-O1", "-g", "-w"] + SAN_MEM + cov + ["-include", os.path.join(VERIF, "engines", "simrt", "sim_atomics.h")] + WASI_DEFS + bedefs + inc
     cmds = [sut + ["-c", os.path.join(d, variant + ".c"), "-o", os.path.join(d, "mod.o")],
             [x for x in sut if feat == "full" or x not in ("-DHAS_STRNDUP=1", "-DHAS_GETENTROPY=1")] + ["-c", os.path.join(REPO, "wasi", "wasi.c"), "-o", os.path.join(d, "wasi.o")],
-            ["clang", "-O1", "-g", "-Wno-everything", "-Werror=implicit-function-declaration"] + SAN_MEM + WASI_DEFS + inc +
+            ["clang", "-O1", "-g", "-Wno-everything", "-Werror=implicit-function-declaration"] + SAN_MEM + WASI_DEFS + bedefs + inc +
             ["-DMOD=" + variant, '-DMOD_HEADER="%s.h"' % variant, '-DMOD_DISPATCH="%s_dispatch.inc"' % variant] + (["-DNOTHREAD"] if variant.endswith("nt") else []) +
             ["-c", os.path.join(ENG, "glue.c"), "-o", os.path.join(d, "glue.o")]]
     cxx = ["clang++", "-std=c++17", "-O1", "-g"] + SAN_MEM + ["-I" + SIMCORE, "-I" + ENG]
     cmds.append(cxx + ["-c", os.path.join(SIMCORE, "simcore.cpp"), "-o", os.path.join(d, "simcore.o")])
-    cmds.append(cxx + ["-c", os.path.join(ENG, "simwasi.cpp"), "-o", os.path.join(d, "simwasi.o")])
+    cmds.append(cxx + (["-DSIMWASI_BE"] if be else []) + ["-c", os.path.join(ENG, "simwasi.cpp"), "-o", os.path.join(d, "simwasi.o")])
     parallel_cmds(cmds)
     wraps = ["-Wl,--wrap=" + s for s in WRAP_PTHREAD + WRAP_WASI]
     run_cmd(["clang++"] + SAN_MEM + [os.path.join(d, o) for o in ("mod.o", "wasi.o", "glue.o", "simcore.o", "simwasi.o")] + wraps + ["-lpthread", "-lm", "-o", exe])
@@ -81,6 +85,31 @@ ASSUME = {
 }
 
 
+def be_sample(seed, per_prop, rdir):
+    """For C19: the WASI workloads of C12-C15 on a build whose runtime accessors are the big-endian ones (module, wasi.c and the
+    harness' own guest-memory accessors byte-reverse): the host must reach guest memory only through accessors of the right width.
+    Returns (runs, list of failing result dicts)."""
+    exe = build("wasihost+be")
+    runs, bad = 0, []
+    for prop in ("C12", "C13", "C14", "C15"):
+        pool = WorkerPool(lambda s, st, c, prop=prop: [exe, "--prop", prop, "--seed", str(seed), "--start", str(s), "--stride", str(st), "--count", str(c), "--replay-dir", rdir, "--scratch", rdir, "--build-tag", "be"],
+                          per_prop, wall_cap=3600)
+        pool.run()
+        runs += len(pool.results)
+        for r in pool.results:
+            if r.get("verdict") == "FAIL":
+                r["prop"] = prop
+                bad.append(r)
+        for c in pool.crashes:
+            bad.append({"prop": prop, "sig": "%s/harness-worker-died/exit%s" % (prop, c["exit"]), "replay": None, "detail": c["stderr"][-400:], "idx": c["idx"]})
+    return runs, bad
+
+
+def replay_be(path, rdir):
+    exe = build("wasihost+be")
+    return subprocess.run([exe, "--replay", path, "--scratch", rdir], stdout=subprocess.PIPE, stderr=subprocess.PIPE)
+
+
 def check(prop, tier, seed, replay=None):
     t0 = time.time()
     nq, nt = PROPS[prop]
@@ -97,7 +126,7 @@ def check(prop, tier, seed, replay=None):
         with open(path, errors="replace") as f:
             txt = f.read()
         nt_ = " nothread=1" in txt
-        want = "wasihostnt" if nt_ else ("wasihost+bundled" if "# build bundled" in txt else "wasihost")
+        want = "wasihostnt" if nt_ else ("wasihost+bundled" if "# build bundled" in txt else ("wasihost+be" if "# build be" in txt else "wasihost"))
         exe = exes.get(want) or build(want)
         return [exe, "--replay", path, "--scratch", rdir]
 
